@@ -39,6 +39,9 @@ type SpecCfg struct {
 	// AcyclicRefs: definition i may only reference definitions declared before it
 	// (plus, now and then, itself), which keeps $ref expansion small.
 	AcyclicRefs bool
+	// UniqueParamNames: parameter names of one operation are distinct across
+	// locations, ignoring case and punctuation (reflection harnesses match on that key).
+	UniqueParamNames bool
 }
 
 var allMethods = []string{"get", "put", "post", "delete", "options", "head", "patch"}
@@ -181,7 +184,15 @@ func Spec(t *rapid.T, c *SpecCfg) J {
 				}
 			}
 			if chance(t, fmt.Sprintf("def%d_isobj", i), 60) {
-				objDefs = append(objDefs, n)
+				if so.Core {
+					// a definition usable as allOf member is a plain object: no allOf, no additionalProperties
+					if chance(t, fmt.Sprintf("def%d_member", i), 50) {
+						so.AllOf, so.AddlProps = false, false
+						objDefs = append(objDefs, n)
+					}
+				} else {
+					objDefs = append(objDefs, n)
+				}
 				s = J{}
 				ObjectInto(t, fmt.Sprintf("def%d", i), &so, 0, s)
 				if so.Descr && chance(t, fmt.Sprintf("def%d_hasdesc", i), 30) {
@@ -352,6 +363,13 @@ func Spec(t *rapid.T, c *SpecCfg) J {
 			usedPN := map[string]bool{}
 			for _, n := range pathParams {
 				usedPN["path:"+strings.ToLower(n)] = true
+				usedPN["any:"+alnumLower(n)] = true
+			}
+			usedPN["any:body"] = true
+			for _, sp := range asList(item["parameters"]) {
+				if spj, ok := sp.(J); ok {
+					usedPN["any:"+alnumLower(str(spj["name"]))] = true
+				}
 			}
 			if !shared {
 				for _, n := range pathParams {
@@ -381,7 +399,11 @@ func Spec(t *rapid.T, c *SpecCfg) J {
 					ins = append(ins, "formData", "formData")
 				}
 				in := rapid.SampledFrom(ins).Draw(t, kl+"_in")
-				name := Unique(t, kl+"_name", usedPN, func(s string) string { return in + ":" + strings.ToLower(s) }, pn)
+				keyf := func(s string) string { return in + ":" + strings.ToLower(s) }
+				if c.UniqueParamNames {
+					keyf = func(s string) string { return "any:" + alnumLower(s) }
+				}
+				name := Unique(t, kl+"_name", usedPN, keyf, pn)
 				if in == "header" {
 					name = "X-" + name
 				}
@@ -463,6 +485,16 @@ func Spec(t *rapid.T, c *SpecCfg) J {
 }
 
 func withIn(o SimpleOpts, in string) SimpleOpts { o.In = in; return o }
+
+func alnumLower(s string) string {
+	var sb strings.Builder
+	for _, r := range strings.ToLower(s) {
+		if (r >= 'a' && r <= 'z') || (r >= '0' && r <= '9') || r > 127 {
+			sb.WriteRune(r)
+		}
+	}
+	return sb.String()
+}
 
 func pathShape(p string) string {
 	segs := strings.Split(p, "/")
